@@ -309,7 +309,7 @@ def run(ctx):
     plan = [("mixed" if c09 else "jobs", 24 if q else 120, 60 if q else 100)]
     if c09:
         # engineered trie shapes (branch over leaf + committed branch, see shapesHistory): deletes that collapse a branch
-        plan.append(("shapes", 6 if q else 18, 45 if q else 70))
+        plan.append(("shapes", 6 if q else 18, 50 if q else 70))
     if c09 and not q:
         plan.append(("nojobs", 80, 120))
     nseed = 1 if q else 2
